@@ -3032,7 +3032,14 @@ impl Context {
             Expr::Match(scrutinee, arms) => {
                 // For now, implement match as a chain of if-else comparisons
                 // This is a simple implementation for Phase 1 (integer patterns)
-                self.eval_match(*scrutinee, arms, ty)
+                // The variables bound by the arms' patterns end with the match (as in the type
+                // checker): they must not shadow same-named bindings in the code that follows.
+                let nbinds = self.valenv.0.front().map_or(0, |frame| frame.len());
+                let res = self.eval_match(*scrutinee, arms, ty);
+                if let Some(frame) = self.valenv.0.front_mut() {
+                    frame.truncate(nbinds);
+                }
+                res
             }
             Expr::Bracket(_) | Expr::Escape(_) | Expr::MacroExpand(_, _) => {
                 unreachable!("Macro code should be expanded before mirgen")
